@@ -677,7 +677,7 @@ fn oracle_body(w: &mut OWorld, s: &mut Side, ctx: &Ctx, body: &[Op]) -> Out {
 
 /// One top-level message. Returns (success flag, observation log).
 fn oracle_msg(w: &mut OWorld, s: &mut Side, entry: usize, value: u64, body: &[Op]) -> (u8, Vec<W>) {
-    if std::env::var("C19_TMPBUG").is_err() { w.trans.clear(); }
+    w.trans.clear();
     w.writer.retain(|k, _| !k.0);
     w.events.clear();
     let snap = w.clone();
